@@ -10,7 +10,7 @@ from props.tapecommon import CaseDir, gen_content, gen_source_path, materialize,
 
 GEN_FILES = ["GenDisk", "GenTape"]
 RULE = ("source lists as in C01/C02 (tape and both disk flavours). The same ordered list of (catalogue name, kind, content) is presented in up to six ways: twice in a row, "
-        "quiet and verbose, sources reached by cwd-relative paths, by absolute paths, from directories whose names contain dots, target absent or present with arbitrary old "
+        "quiet and verbose, sources reached by cwd-relative paths, by absolute paths, from directories whose names contain dots, from a side0 directory next to the archive (where extraction will write), target absent or present with arbitrary old "
         "bytes (shorter, equal, longer than an archive), and again as three separate processes (python -m <tool>) under other string-hash seeds and time zones. Oracle on the real files: all the archives are byte-identical; every source file is byte-identical after every action; "
         "list and extract (run twice) leave the archive byte-identical and never open it for writing - also on archives the tools did not write (independent writer, 1/2/4 sides, non-FF .sd padding, trailing bytes, bit flips, whether the tool reports or refuses). One variant is also compared with the extracted model. "
         "signature = (medium, n sources, flags {abs, dotted, old-target, verbose, eos}); non-trivial = at least one data-bearing source")
@@ -91,7 +91,7 @@ def real_create(tape, is_fd, arch, args, cwd, hashseed, tz):
         return "timeout", ""
 
 
-VARIANTS = [("rel", "", False), ("rel-verbose", "", True), ("dotted", "d.ot/x.y/", False), ("abs", "ABS", True), ("again", "", False), ("elsewhere", "", False), ("mixed", "MIX", True)]
+VARIANTS = [("rel", "", False), ("rel-verbose", "", True), ("dotted", "d.ot/x.y/", False), ("abs", "ABS", True), ("again", "", False), ("elsewhere", "", False), ("mixed", "MIX", True), ("insides", "side0/", False)]
 
 
 def run_read_case(case, ctx):
@@ -242,6 +242,14 @@ def run_case(case, ctx):
         if bad is None:
             arch = f"out_rel{ext}"
             ref = archives["rel"]
+            # files that are not in the archive lie where extraction writes (the sources of the 'insides' variant live in side0/ already): they are none of its business
+            for q_ in ("side0/zz keep.me", "side1/notes.txt", "side3/.hidden", "keep.me"):
+                p_ = os.path.join(cd.cwd, q_)
+                if not os.path.lexists(p_):
+                    os.makedirs(os.path.dirname(p_), exist_ok=True)
+                    with open(p_, "wb") as f_:
+                        f_.write(b"not in the archive")
+                    src_bytes[p_] = b"not in the archive"
             for act in ("-t", "-x", "-x", "-t"):
                 if tape:
                     r = run_tool(ctx, "tar", [act, arch], cd)
@@ -256,7 +264,7 @@ def run_case(case, ctx):
                 for p, c in src_bytes.items():
                     if not os.path.exists(p) or open(p, "rb").read() != c:
                         # extraction next to the archive may legitimately rewrite a same-named file with the same bytes
-                        bad = {"a source file was altered by": act, "file": os.path.relpath(p, cd.root)}
+                        bad = {"a source file (or a file that is not in the archive) was altered or removed by": act, "file": os.path.relpath(p, cd.root)}
                         break
                 if bad:
                     break
